@@ -25,6 +25,8 @@ def run(rep):
         nv, nob = check_paths(rep, 'C05.2 tree maxdepth=%d' % Dm, H, outs, Dm, 0, True); rep.absorb_vm(H.vm)
         if nv == 0: rep.holds('C05.2 tree: Err iff first fault reached is unrecoverable, divergence flagged, draw created before the fault, no site beyond the fault, no panic - maxdepth=%d (%d paths)' % (Dm, len(outs)), time.time() - t0)
     register_draw(rep, mir, L)
+    from ..driver import parts
+    parts(rep, [lambda: flow_collector(rep, mir, L)])
     init_state(rep, mir, L)
     from ..driver import parts
     from .c07 import init_search
@@ -146,6 +148,44 @@ def register_draw(rep, mir, L):
     else: rep.holds('C05.5 DrawGradCollector::register_draw: is_good = (|idx| > 4) on divergent draws, idx != 0 otherwise (%d paths)' % n)
 
 def _b(v): return z3.BoolVal(v) if isinstance(v, bool) else v
+
+def flow_collector(rep, mir, L):
+    """DrawCollector (what the flow / external adaptation is trained on): a point is collected iff it is not divergent, its energy error is finite
+    and not above the limit, and its position and gradient are finite - in orbit mode for every leapfrog end point, otherwise for the draw"""
+    from ..alg import FP64Alg
+    bad = []; n = 0
+    for meth in ('register_leapfrog', 'register_draw'):
+        for orbit in (True, False):
+            for div in ((False, True) if meth == 'register_leapfrog' else (False,)):
+                A = FP64Alg(); vm = VM(mir, A); fn = mir.method('DrawCollector', 'Collector', meth)
+                ee = A.fresh('energy_error'); mx = A.fresh('max_energy_error'); fp, fg = z3.Bool('position_finite'), z3.Bool('gradient_finite')
+                vm.add_model(r'^State::<M, P>::point$', lambda vm, m, c, a: ret(m, a[0]))
+                vm.add_model(r'^<P as Point<M>>::energy_error$', lambda vm, m, c, a: ret(m, ee))
+                vm.add_model(r'^<P as Point<M>>::position$', lambda vm, m, c, a: ret(m, Opaque('position')))
+                vm.add_model(r'^<P as Point<M>>::gradient$', lambda vm, m, c, a: ret(m, Opaque('gradient')))
+                vm.add_model(r'^<P as Point<M>>::logp$', lambda vm, m, c, a: ret(m, A.fresh('logp')))
+                vm.add_model(r'^<M as Math>::array_all_finite$', lambda vm, m, c, a: ret(m, fp if getattr(a[1], 'tag', '') == 'position' else fg))
+                vm.add_model(r'^<M as Math>::copy_array$', lambda vm, m, c, a: ret(m, Struct((a[1],), 'Copy')))
+                m = Machine()
+                col = L.make('DrawCollector', {'draws': Seq(()), 'grads': Seq(()), 'logps': Seq(()), 'collect_orbit': orbit, 'max_energy_error': mx})
+                c = m.alloc(col); st = Ref(m.alloc(Opaque('state')))
+                if meth == 'register_leapfrog': args = [Ref(c), Ref(m.alloc(Opaque('math'))), st, st, SOME(Ref(m.alloc(Struct((), 'DivergenceInfo')))) if div else NONE()]
+                else: args = [Ref(c), Ref(m.alloc(Opaque('math'))), st, Ref(m.alloc(Opaque('info')))]
+                outs = vm.run(fn, args, m); n += len(outs); rep.absorb_vm(vm)
+                active = orbit if meth == 'register_leapfrog' else (not orbit)
+                for (mm, k, v) in outs:
+                    if k != 'ret': bad.append((meth, 'panics', str(v)[:80])); continue
+                    after = mm.mem[c]; g = lambda f: L.get('DrawCollector', after, f)
+                    took = len(g('draws').items) == 1
+                    if len(g('draws').items) != len(g('grads').items) or len(g('draws').items) != len(g('logps').items): bad.append((meth, 'draws / grads / logps get out of step'))
+                    want = z3.And(z3.BoolVal(active and not div), A.is_finite(ee), z3.Not(A.lt(mx, ee)) if hasattr(A, 'lt') else z3.Not(z3.fpGT(ee.v, mx.v)), fp, fg)
+                    s = z3.Solver(); s.set('timeout', 60000); s.add(*mm.pc); s.add(z3.BoolVal(took) != want)
+                    r = s.check()
+                    if r == z3.sat: bad.append((meth, 'orbit' if orbit else 'draws', 'a point is collected although it is divergent / has a non-finite or too large energy error / non-finite position or gradient - or a good point is dropped', str(s.model())[:160]))
+                    elif r == z3.unknown: rep.unknown('C05.7 flow collector %s' % meth, 'solver unknown')
+    rep.paths += n
+    if bad: rep.violated('C05.7 flow collector', 'flow_collector', 'DrawCollector: %s' % (bad[0],), model={'problems': [str(b)[:300] for b in bad[:5]]})
+    else: rep.holds('C05.7 DrawCollector (flow adaptation): collects exactly the non-divergent points with finite energy error <= max_energy_error and finite position and gradient; orbit mode per leapfrog, otherwise per draw (%d paths)' % n)
 
 # ------------------------------------------------------------------------------------------------
 def init_state(rep, mir, L):
